@@ -27,10 +27,11 @@ const (
 	KRollback
 	KCursorClose
 	KClose
+	KAfterTx
 	NKinds
 )
 
-var kindNames = [...]string{"begin", "get", "set", "delete", "cursor", "seek", "next", "valid", "item", "commit", "rollback", "cclose", "close"}
+var kindNames = [...]string{"begin", "get", "set", "delete", "cursor", "seek", "next", "valid", "item", "commit", "rollback", "cclose", "close", "aftertx"}
 
 func (k Kind) String() string { return kindNames[k] }
 
@@ -174,6 +175,15 @@ func (c *Ctl) before(k Kind, update bool, key []byte) (bool, error) {
 	return false, nil
 }
 
+// afterTx is a scheduling point right after a transaction has ended: whatever
+// the operation still does with data it read (decoding, post-processing) runs
+// while other clients may commit.
+func (c *Ctl) afterTx() {
+	if c.Yield != nil && !c.Crashed {
+		c.Yield(KAfterTx, false)
+	}
+}
+
 func (c *Ctl) after(k Kind) {
 	if k.Faultable() && c.CrashAt == c.FCalls && c.CrashAfter && !c.Crashed {
 		c.crashNow(k)
@@ -289,6 +299,7 @@ func (tx *Tx) Commit() error {
 		}
 	}
 	tx.c.after(KCommit)
+	tx.c.afterTx()
 	return err
 }
 
@@ -313,6 +324,7 @@ func (tx *Tx) Rollback() error {
 	}
 	err = tx.inner.Rollback()
 	tx.finish()
+	tx.c.afterTx()
 	return err
 }
 
